@@ -1202,7 +1202,7 @@ package log
 // a well-formed field list: every payload agrees with its type tag, recursively for nested objects.
 // wf_fields is abstract and heap-independent (field lists handed to the library are not modified while
 // it runs); its meaning on the heap at function entry is given by this axiom
-//@ axiom forall fs []Field :: { wf_fields(fs) } wf_fields(fs) ==> (forall k int :: 0 <= k && k < len(fs) ==> fieldWF(fs[k]) && (fs[k].Type == 7 ==> wf_fields(as(fs[k].Any, []Field))))
+//@ axiom[when wf_fields] forall fs []Field :: { wf_fields(fs) } wf_fields(fs) ==> (forall k int :: 0 <= k && k < len(fs) ==> fieldWF(fs[k]) && (fs[k].Type == 7 ==> wf_fields(as(fs[k].Any, []Field))))
 // a list of plain string fields (the JSON header) is well-formed without recursion
 //@ spec fun flatStrings(fs []Field) bool = forall k int :: 0 <= k && k < len(fs) ==> fs[k].Type == 4 && dyn(fs[k].Any, *byte)
 //@ spec fun fieldsWF(fs []Field) bool = wf_fields(fs) || flatStrings(fs)
